@@ -60,9 +60,12 @@ def contest_spec(draw, kind=None, audit_types=("CARD_COMPARISON", "ONEAUDIT", "P
     kind = kind or draw(st.sampled_from(["plurality", "plurality", "super", "irv"]))
     ncand = draw(st.integers(2, ncand_max)) if kind != "irv" else draw(st.integers(3, max(3, ncand_max)))
     cands = CANDS[:ncand]
-    spec = {"kind": kind, "cands": cands, "audit_type": draw(st.sampled_from(list(audit_types))),
+    at = draw(st.sampled_from(list(audit_types)))
+    # optimal_comparison is documented for ballot-level comparison audits only (u > 1)
+    tests = [t for t in sorted(TESTS) if not (at == "POLLING" and t == "alpha-optcomp")]
+    spec = {"kind": kind, "cands": cands, "audit_type": at,
             "risk_limit": draw(st.sampled_from([0.05, 0.05, 0.1, 0.01, 0.25, 0.5])),
-            "test": draw(st.sampled_from(sorted(TESTS)))}
+            "test": draw(st.sampled_from(tests))}
     if kind == "plurality":
         k = draw(st.integers(1, ncand - 1))
         spec["winners"] = sorted(draw(st.lists(st.sampled_from(cands), min_size=k, max_size=k, unique=True)))
@@ -75,6 +78,8 @@ def contest_spec(draw, kind=None, audit_types=("CARD_COMPARISON", "ONEAUDIT", "P
         js = []
         for _ in range(draw(st.integers(1, 3))):
             a, b = draw(st.lists(st.sampled_from(cands), min_size=2, max_size=2, unique=True))
+            if draw(st.integers(0, 3)) > 0 and a != w:  # most assertions are about the reported winner
+                a, b = w, (a if b == w else b)
             if draw(st.booleans()):
                 js.append({"winner": a, "loser": b, "assertion_type": "WINNER_ONLY", "already_eliminated": ""})
             else:
@@ -203,3 +208,25 @@ def build(scn, pool_workflow=True):
         else:
             mvrs.append(CVR(id=c["id"], votes=copy.deepcopy(m["votes"]), phantom=False))
     return audit, contests, cvrs, mvrs
+
+
+@st.composite
+def sampling_plan(draw, scn):
+    """distinct sample numbers for every card and a per-contest sample size 1..#cards listing the contest."""
+    n = len(scn["cards"])
+    nums = draw(st.permutations(list(range(1, n + 1))))
+    scale = draw(st.sampled_from([1, 1, 7, 10 ** 6, 2 ** 61]))
+    nums = [int(v) * scale + draw(st.integers(0, scale - 1)) if scale > 1 else int(v) for v in nums]
+    sizes = {}
+    return {"sample_nums": nums, "size_fracs": {cid: draw(st.floats(0.0, 1.0)) for cid in scn["contests"]}}
+
+
+def apply_plan(scn, plan, cvrs, contests, min_size=1):
+    """install sample numbers and sizes (size = min_size + frac*(available-min_size), available = cards listing the contest)."""
+    for c, s in zip(cvrs, plan["sample_nums"]):
+        c.sample_num = s
+    for cid, con in contests.items():
+        avail = sum(1 for c in cvrs if c.has_contest(cid))
+        lo = min(min_size, avail)
+        con.sample_size = lo + int(round(plan["size_fracs"][cid] * (avail - lo)))
+    return {cid: con.sample_size for cid, con in contests.items()}
